@@ -326,6 +326,8 @@ def _run_hyp(sub, shard, nshards, tier, seed, st, known, shrink_s):
     import hypothesis
     from hypothesis import given, settings, HealthCheck, Phase
     total = sub.n[0] if tier == 'quick' else sub.n[1]
+    if tier == 'quick':     # the per-sub-check quick counts were sized for ~10 s; the quick tier has room for more (DESIGN 9)
+        total = int(total * float(os.environ.get('VERIF_QUICK_MULT', '3')))
     n = max(1, total // nshards)
     state = {'best': None, 'first_fail_t': None}
 
